@@ -77,11 +77,14 @@ def run(tier, seed):
                          variant=variant, timeout=1800, tag="named_json." + variant, prop=PROP)
             j.dir = d
             js.append(j)
+    # backtrace statements with and without named arguments sharing ring slots (e2e family, run with --label C19)
+    from vlib import e2e
+    js += e2e.jobs(core.build_many(e2e.specs_for(["backtrace@c19"])), "backtrace@c19", tier, seed, PROP)
     col = core.Collector(PROP)
     json_checked = 0
     for j in core.run_jobs(js):
         col.absorb(j, prop_filter={PROP})
-        if j.rc == 0 and j.ended:
+        if j.rc == 0 and j.ended and getattr(j, "dir", None):
             json_checked += judge_json(j.dir, col, j)
     st = col.stats
     cov = {
@@ -93,8 +96,9 @@ def run(tier, seed):
                 "an order shuffled per seed (the backend caches the parsed template per format string). Judged in the harness: message = "
                 "fmtquill::format(positional, args), one (name, value formatted with its own spec) pair per argument in order; judged by the driver "
                 "with Python's json: exactly one line per statement, each parses, fixed fields in order, message = original template (newline -> "
-                "space), then the pairs in order. distinct = templates + first-use orders",
+                "space), then the pairs in order. Plus mode-S backtrace scenarios (e2e harness, --label C19) in which named and plain backtrace statements overwrite each other in the ring: a replayed statement carries exactly its own pairs. distinct = templates + first-use orders",
         "json_lines_parsed_and_matched": json_checked,
+        "backtrace_scenarios_with_named_and_plain_statements_sharing_ring_slots": int(st.get("backtrace_scenarios", 0)),
     }
     return core.finish(PROP, "exploration", tier, seed, t0, col, cov, [
         "the JSON line is judged only for statements whose values need no JSON escaping (hex-escaped bytes contain a backslash); text and key/value pairs are judged for all", "bundled fmt is the trusted base for formatting one value"])
